@@ -287,6 +287,14 @@ class ArbMon(Mon):
             t = t | ((m.valid & m.ready) & ~(hsk & (sl.data == m.data) & (sl.last == m.last)))
         self.bad_fwd = Signal(name_override="bad_forwarding")
         self.comb += self.bad_fwd.eq(t | (hsk & (sl.data[:2] >= n)))
+        # bounded waiting (round robin): while master J keeps offering, at most n packets of other masters complete before one of its own beats moves
+        self.J = Signal(max=max(n, 2), name_override="J")
+        jv = Array([m.valid for m in ms])[self.J]
+        jhs = Array([m.valid & m.ready for m in ms])[self.J]
+        others = self.reg(3, "other_packets_while_waiting")
+        self.sync += If(~jv | jhs, others.eq(0)).Elif(hsk & sl.last & (sl.data[:2] != self.J) & (others != 7), others.eq(others + 1))
+        self.bad_starve = Signal(name_override="bad_starved")
+        self.comb += self.bad_starve.eq((self.J < n) & jv & (others > n))
         seen = [self.reg(1, "seen%d" % i) for i in range(n)]
         self.sync += [If(hsk & sl.last & (sl.data[:2] == i), seen[i].eq(1)) for i in range(n)]
         a = 1
@@ -299,7 +307,8 @@ class ArbMon(Mon):
 
 def build_arb(n, K):
     m = ArbMon(n)
-    return H("packet_arbiter_%d" % n, m, m.free, assume=[m.asm], bad=dict(packets_not_interleaved=m.bad_mix, beats_forwarded_unchanged=m.bad_fwd), witness=dict(all_sources_served=m.w),
+    return H("packet_arbiter_%d" % n, m, m.free, rigid=[m.J], assume=[m.asm], bad=dict(packets_not_interleaved=m.bad_mix, beats_forwarded_unchanged=m.bad_fwd, waiting_master_served_after_at_most_n_other_packets=m.bad_starve),
+             witness=dict(all_sources_served=m.w),
              K=K, funcs=FUNCS, cfg=dict(masters=n), show=m.showl, vcycles=30)
 
 
